@@ -46,7 +46,7 @@ def all_units():
 
 
 def units_for(prop):
-    return [u for u in all_units().values() if prop in u.get("properties", []) and not u.get("disabled")]
+    return [u for u in all_units().values() if prop in u.get("properties", []) and not u.get("disabled") and not u.get("library")]
 
 
 # ------------------------------------------------------------------------------------------------
